@@ -137,7 +137,7 @@ fn next_call(a: &mut Active, m: &Model) -> Result<Option<Call>, ()> {
             // one datum in four arrives through merge() of a single-vertex tree instead of put()
             // (when the vertex is the root of a tree, as merge() requires)
             let v = a.ids[i];
-            let h = crate::calls::TreeSpec { cap: 2, nodes: vec![crate::calls::TNode { id: 1, parent: None, label: None, data: Some(d.clone()), read: false }], extras: vec![], pairs_first: false, segment: 0 };
+            let h = crate::calls::TreeSpec { cap: 2, nodes: vec![crate::calls::TNode { id: 1, parent: None, label: None, data: Some(d.clone()), read: d.len() % 8 == 5 }], extras: vec![], pairs_first: false, segment: 0 };
             if d.len() % 4 == 1 && crate::interp::plan_merge(m, &h, v).is_some() {
                 Call::Merge { h, left: v }
             } else {
